@@ -50,7 +50,7 @@ func runC13(id string) int {
 			if vb == nil {
 				continue
 			}
-			ext := O.IsAncestor(a, b)  // b proper ancestor of a
+			ext := O.IsAncestor(a, b)   // b proper ancestor of a
 			extBy := O.IsAncestor(b, a) // a proper ancestor of b: "a is extended by b"
 			dis := O.Disjoint(a, b)
 			if f := reg.Extends[a]; f != nil {
